@@ -9,5 +9,5 @@ CONSTANTS
   ScenPos = {0, 1, 2, 3, 4, 5, 6}
   Variants = {"pinned", "fixed"}
   Interleave = TRUE
-  Emit = TRUE
+  Emit = "done"
 CHECK_DEADLOCK FALSE
